@@ -608,9 +608,13 @@ Value Search::search(Position& position, Depth depth, Value alpha, Value beta,
                                            depth);
                     }
 
-                    tt::TTEntry entry(result, depth, tt::Flag::kLOWER_BOUND,
-                                      move);
-                    _ttable.insert(position.hash(), entry);
+                    // values computed from an aborted subtree are meaningless
+                    if (!stop_search)
+                    {
+                        tt::TTEntry entry(result, depth, tt::Flag::kLOWER_BOUND,
+                                          move);
+                        _ttable.insert(position.hash(), entry);
+                    }
 
 #if LOG_LEVEL > 1
                     {
@@ -640,7 +644,7 @@ Value Search::search(Position& position, Depth depth, Value alpha, Value beta,
         best_move = begin[0];
         set_new_pv_list(info, best_move);
     }
-    else
+    else if (!stop_search)  // see above: nothing is stored once the search is aborted
     {
         tt::Flag flag = PV_NODE ? tt::Flag::kEXACT : tt::Flag::kUPPER_BOUND;
         tt::TTEntry entry(bestValue, depth, flag, best_move);
